@@ -1164,7 +1164,7 @@ def search(R, ctx, deep, hints):
     for h in hints[:30]:
         try:
             inp = h['input'][1]
-            if isinstance(inp, dict) and 'lowrank' in inp:
+            if isinstance(inp, dict) and isinstance(inp.get('lowrank'), dict):
                 f = oracle_exact(tn, dict(inp['lowrank']))
                 if f:
                     f['kind'] = 'exact'
@@ -1221,7 +1221,7 @@ def search(R, ctx, deep, hints):
     for h in hints[:30]:
         try:
             inp = h['input'][1]
-            if isinstance(inp, dict) and 'history' in inp:
+            if isinstance(inp, dict) and isinstance(inp.get('history'), dict):
                 hs.append(inp['history'])
         except Exception:
             pass
@@ -1243,9 +1243,9 @@ def search(R, ctx, deep, hints):
     for h in hints[:40]:
         try:
             inp = h['input'][1]
-            if isinstance(inp, dict) and 'forms' in inp:
+            if isinstance(inp, dict) and isinstance(inp.get('forms'), dict):
                 fs.append(inp['forms'])
-            if isinstance(inp, dict) and 'objhist' in inp:
+            if isinstance(inp, dict) and isinstance(inp.get('objhist'), dict):
                 os_.append(inp['objhist'])
         except Exception:
             pass
@@ -1277,27 +1277,27 @@ def replay(data):
     p = data['payload']
     print(data['what'])
     inp = p.get('input')
-    if isinstance(inp, dict) and 'lowrank' in inp:
+    if isinstance(inp, dict) and isinstance(inp.get('lowrank'), dict):
         f = oracle_exact(tn, inp['lowrank'])
         print('replayed:', f)
         return 1 if f else 0
-    if isinstance(inp, dict) and 'forms' in inp:
+    if isinstance(inp, dict) and isinstance(inp.get('forms'), dict):
         f = oracle_forms(tn, inp['forms'])
         print('replayed:', f)
         return 1 if f else 0
-    if isinstance(inp, dict) and 'objhist' in inp:
+    if isinstance(inp, dict) and isinstance(inp.get('objhist'), dict):
         f = oracle_objhist(tn, inp['objhist'])
         print('replayed:', f)
         return 1 if f else 0
-    if isinstance(inp, dict) and 'forms' in inp:
+    if isinstance(inp, dict) and isinstance(inp.get('forms'), dict):
         f = oracle_forms(tn, inp['forms'])
         print('replayed:', f)
         return 1 if f else 0
-    if isinstance(inp, dict) and 'objhist' in inp:
+    if isinstance(inp, dict) and isinstance(inp.get('objhist'), dict):
         f = oracle_objhist(tn, inp['objhist'])
         print('replayed:', f)
         return 1 if f else 0
-    if isinstance(inp, dict) and 'history' in inp:
+    if isinstance(inp, dict) and isinstance(inp.get('history'), dict):
         f = oracle_history(tn, inp['history'])
         print('replayed:', f)
         return 1 if f else 0
